@@ -57,18 +57,20 @@ def chart_array(kind, matrix, shape):
 
 
 class Leaf:
-    def __init__(self, kind, matrices, shape, cplx, init):
+    def __init__(self, kind, matrices, shape, cplx, init, learnable=True):
         self.kind = kind              # layer kind (decides the chart)
         self.matrices = matrices      # one complex dyadic matrix (linear domain) per store version
         self.shape = shape
         self.cplx = cplx
+        self.learnable = learnable
         if init == "const":
             a = chart_array(kind, matrices[0], shape)
             ini = ConstantTensorInitializer(a if cplx else a.real.copy())
         else:
             ini = NormalInitializer()
         self.tensor = TensorParameter(
-            *shape, initializer=ini, dtype=DataType.COMPLEX if cplx else DataType.REAL)
+            *shape, initializer=ini, learnable=learnable,
+            dtype=DataType.COMPLEX if cplx else DataType.REAL)
 
     def linear(self, v=1):
         return np.array(nums.matrix_complex(self.matrices[v - 1]),
@@ -84,7 +86,10 @@ class Leaf:
 class Built:
     """The base circuits of a behaviour, built through the public constructors."""
 
-    def __init__(self, beh, rho, init="random"):
+    def __init__(self, beh, rho, init="random", freeze=0):
+        """freeze: 0 = every tensor is learnable; n > 0: the tensors of the layers i with
+        (i + n) % 3 == 0 are frozen (learnable=False)"""
+        self.freeze = freeze
         self.beh = beh
         self.rho = rho
         self.init = init
@@ -109,7 +114,8 @@ class Built:
                 sc = Scope([self.ids[l["var"] - 1]])
 
             def leaf(shape, real_only=False):
-                lf = Leaf(kind, mats, shape, cplx and not real_only, init)
+                lf = Leaf(kind, mats, shape, cplx and not real_only, init,
+                          learnable=not (self.freeze and (i + self.freeze) % 3 == 0))
                 self.leaves[i] = lf
                 return lf.tensor
 
